@@ -266,7 +266,68 @@ func (c *fuzzComp) buildMessage(tmpl string, v int) ([]byte, string, bool) {
 	}
 }
 
+// wedge: a registered host floods its own connection with reply-shaped messages nobody waits for (same id); that
+// may stall *its* connection, but a request arriving on another connection that makes the pool call this host must
+// still be answered (after the pool's whitelist timeout at the latest).
+func (c *fuzzComp) wedge(k, v int) ([]string, string, bool) {
+	host, client := nodeIdents[0], nodeIdents[5]
+	call := func(rc *rawConn, id string, who *identity, method string, req interface{}, wait time.Duration) (string, bool) {
+		nonce := c.nextNonce()
+		sig, _ := request.Sign(who.key, method, who.id, nonce, req)
+		b, _ := json.Marshal(map[string]interface{}{"jsonrpc": "2.0", "id": json.RawMessage(id), "method": method, "params": []interface{}{sig, who.id, nonce, req}})
+		if !rc.send(b) {
+			return "", false
+		}
+		deadline := time.Now().Add(wait)
+		for time.Now().Before(deadline) {
+			l, open := rc.next(time.Until(deadline))
+			if !open {
+				return "", false
+			}
+			if strings.Contains(l, `"id":`+id) {
+				return l, true
+			}
+		}
+		return "", false
+	}
+	a, b := c.conn("A"), c.conn("B")
+	if _, ok := call(a, "9001", host, "vipnode_connect", pool.ConnectRequest{NodeInfo: ethnode.UserAgent{Kind: ethnode.Geth, IsFullNode: true}, NodeURI: "enode://" + host.id + "@1.2.3.4:30303"}, 2*time.Second); !ok {
+		return nil, "setup-failed host", false
+	}
+	if _, ok := call(b, "9002", client, "vipnode_connect", pool.ConnectRequest{NodeInfo: ethnode.UserAgent{Kind: ethnode.Geth}}, 2*time.Second); !ok {
+		return nil, "setup-failed client", false
+	}
+	shapes := []string{`{"jsonrpc":"2.0","id":77777,"result":"x"}`, `{"jsonrpc":"2.0","id":77777,"error":{"code":1,"message":"m"}}`, `{"jsonrpc":"2.0","id":"dup","result":null}`}
+	for i := 0; i < k; i++ {
+		a.send([]byte(shapes[v%len(shapes)]))
+	}
+	time.Sleep(50 * time.Millisecond)
+	t0 := time.Now()
+	l, ok := call(b, "9003", client, "vipnode_peer", pool.PeerRequest{Num: 3}, pool.VerifPoolWhitelistTimeout()+2*time.Second)
+	a.c.Close()
+	delete(c.conns, "A")
+	if !ok {
+		return nil, fmt.Sprintf("wedged: a peer request on another connection was not answered within %v of %d unsolicited replies on the host's connection", time.Since(t0).Round(time.Second), k), true
+	}
+	shape := "error"
+	if strings.Contains(l, `"result"`) && !strings.Contains(l, `"error"`) {
+		shape = "result"
+	}
+	_ = shape
+	return nil, "alive answered=1", true
+}
+
 func (c *fuzzComp) Exec(t []string) (extra []string, out string, eff bool) {
+	if t[0] == "wedge" {
+		var k, v int
+		if s, ok := FindStr("k", t); ok {
+			fmt.Sscan(s, &k)
+		}
+		if s, ok := FindStr("v", t); ok {
+			fmt.Sscan(s, &v)
+		}
+		return c.wedge(k, v)
+	}
 	if t[0] != "msg" {
 		return nil, "bad-op", false
 	}
@@ -354,5 +415,8 @@ func (c *fuzzComp) Gen(r *rand.Rand, idx int, emit func(string)) {
 	for i := 0; i < 25; i++ {
 		conn := pick(r, []string{"A", "A", "B", "G"})
 		emit(fmt.Sprintf("msg conn=%s tmpl=%s v=%d", conn, pick(r, tmpls), r.Intn(1000)))
+	}
+	if idx%10 == 9 {
+		emit(fmt.Sprintf("wedge k=%d v=%d", 1+r.Intn(4), r.Intn(100)))
 	}
 }
